@@ -856,26 +856,53 @@ def _returned_object(ctx, m, fn, acc):
 FAC_TMPLS = ('Spectra::Arnoldi', 'Spectra::Lanczos')
 
 
+def _returned_counters(fn):
+    """Integer locals that every return statement of fn returns (a function reporting how many applications it made)."""
+    rets = [x for x in fn.walk() if x['k'] == 'ReturnStmt' and x.get('value', -1) >= 0]
+    if not rets:
+        return set()
+    vs = None
+    for r in rets:
+        v = fn.strip(fn.nodes[r['value']])
+        cur = {v['var']} if v is not None and v['k'] == 'DeclRefExpr' and 'var' in v and fn.locals[v['var']]['type'] in ('long', 'int', 'Eigen::Index') else set()
+        vs = cur if vs is None else (vs & cur)
+    out = set()
+    for v in (vs or ()):
+        # initialised to zero at its declaration
+        for x in fn.walk():
+            if x['k'] == 'DeclStmt':
+                for d in x.get('decls', []):
+                    if d.get('var') == v and 'init' in d and sym(fn, d['init'], inline=False) == ('lit', '0'):
+                        out.add(v)
+    return out
+
+
 def counter_pairing(ctx, rule='op-application-counted'):
-    """Inside the factorization every application of the operator adaptor is followed, in the same basic block
-    and before any other application, by an increment of the by-reference counter parameter."""
+    """Inside the factorization every application of the operator adaptor is followed, in the same basic block and before any
+    other application, by an increment of a counter: the by-reference counter parameter, or a zero-initialised local that every
+    return statement hands back -- in which case every call site must add the returned count to its own counter."""
     n_sites = 0
+    reporting = {}          # mangled name -> Function that reports its applications through its return value
     for fn in ctx.F.concrete():
         if fn.cls not in FAC_TMPLS or not fn.cfg:
             continue
-        ctr = [v for v in fn.params if fn.locals[v]['type'] in ('long &', 'Eigen::Index &')]
+        ctr = set(v for v in fn.params if fn.locals[v]['type'] in ('long &', 'Eigen::Index &'))
+        rc = _returned_counters(fn)
+        if rc and any(x['k'] == 'CXXMemberCallExpr' and x.get('callee') == 'perform_op' for x in fn.walk()):
+            reporting[fn.mangled] = fn
+        ctr_all = ctr | rc
         for b in fn.cfg['blocks']:
             pending = None
             for i, n in fn.elem_nodes(b['id']):
                 if n['k'] == 'CXXMemberCallExpr' and n.get('callee') == 'perform_op' and n.get('cls') == 'Spectra::ArnoldiOp':
                     if pending is not None:
-                        ctx.fail(rule, '%s::%s@%d' % (short(fn.cls), fn.name, pending['l'] - fn.line), fn.qname,
+                        ctx.fail(rule, '%s::%s#%s' % (short(fn.cls), fn.name, _ordinal(fn, pending)), fn.qname,
                                  'operator applied at %s and again before the counter was incremented' % fn.loc(pending))
                         n_sites += 1
                     pending = n
                 elif n['k'] == 'UnaryOperator' and n.get('op') == '++' and pending is not None:
                     t = fn.strip(fn.nodes[n['c'][0]])
-                    if t['k'] == 'DeclRefExpr' and t.get('var') in ctr:
+                    if t['k'] == 'DeclRefExpr' and t.get('var') in ctr_all:
                         ctx.ok(rule, '%s::%s#%s' % (short(fn.cls), fn.name, _ordinal(fn, pending)), fn.qname,
                                '%s ; %s' % (fn.s(pending)[:60], fn.s(n)))
                         n_sites += 1
@@ -884,6 +911,24 @@ def counter_pairing(ctx, rule='op-application-counted'):
                 ctx.fail(rule, '%s::%s#%s' % (short(fn.cls), fn.name, _ordinal(fn, pending)), fn.qname,
                          'operator applied at %s without incrementing the operation counter in the same block' % fn.loc(pending))
                 n_sites += 1
+    # callers of a reporting function must not drop the count
+    for fn in ctx.F.concrete():
+        if not fn.cfg:
+            continue
+        ctr = set(v for v in fn.params if fn.locals[v]['type'] in ('long &', 'Eigen::Index &')) | _returned_counters(fn)
+        for c in fn.walk():
+            if c['k'] in ('CXXMemberCallExpr', 'CallExpr') and c.get('mangled') in reporting:
+                par = fn.node(fn.parent.get(c['id'], -1))
+                while par is not None and par['k'] in ('ImplicitCastExpr', 'ExprWithCleanups', 'ParenExpr'):
+                    par = fn.node(fn.parent.get(par['id'], -1))
+                ok = False
+                if par is not None and par['k'] == 'CompoundAssignOperator' and par.get('op') == '+=':
+                    l = fn.strip(fn.nodes[par['c'][0]])
+                    ok = (l['k'] == 'DeclRefExpr' and l.get('var') in ctr) or (l['k'] == 'MemberExpr' and l.get('mk') == 'field')
+                n_sites += 1
+                ctx.check(ok, rule, '%s::%s/%s-count' % (short(fn.cls), fn.name, c.get('callee')), fn.qname,
+                          'applications reported by %s are added to the counter' % c.get('callee') if ok else
+                          'the number of operator applications returned by %s() is discarded at %s: num_operations() misses them' % (c.get('callee'), fn.loc(c)))
     return n_sites
 
 
